@@ -214,6 +214,8 @@ func (v V) String() string {
 		return fmt.Sprintf("g%d:%s:%d", v.ID, hx(v.S), z)
 	case 'o':
 		return fmt.Sprintf("o%d:%d", v.Ty, v.ID)
+	case 'O':
+		return "O" + v.Op
 	case 'K':
 		var xs []string
 		for _, x := range v.Xs {
@@ -258,6 +260,8 @@ func parseV(toks []string) (V, []string) {
 		p := strings.SplitN(t[1:], ":", 3)
 		id, _ := strconv.Atoi(p[0])
 		return V{T: 'g', ID: id, S: unhx(p[1]), B: p[2] == "1"}, toks[1:]
+	case 'O':
+		return V{T: 'O', Op: t[1:]}, toks[1:]
 	case 'o':
 		p := strings.SplitN(t[1:], ":", 2)
 		cls, _ := strconv.Atoi(p[0])
@@ -583,6 +587,8 @@ func Build(v V) any {
 		return Strg{ID: v.ID, S: v.S}
 	case 'o':
 		return opqOf(v.Ty, v.ID)
+	case 'O':
+		return opOf(v.Op)
 	case 'K':
 		return wrapStack(BuildStack(v), v.Form)
 	case 'C':
